@@ -463,3 +463,70 @@ def check_c19(ctx):
 
 
 CHECKS['C19'] = check_c19
+
+
+# ------------------------------------------------------------------------------------------
+# C10
+# ------------------------------------------------------------------------------------------
+C10_THEOREMS = ['BinlogVerif.C10.c10_lockset_race_free', 'BinlogVerif.C10.c10_table_obeys', 'BinlogVerif.C10.c10_table_sound',
+                'BinlogVerif.Generated.session_disciplined', 'BinlogVerif.Generated.lockedMethods_match',
+                'BinlogVerif.Generated.session_structure', 'BinlogVerif.C01.c01_race_free',
+                'BinlogVerif.Generated.queueOrders_sufficient', 'BinlogVerif.Generated.code_race_free']
+
+
+def build_tsan():
+    src = os.path.join(VERIF, 'harness', 'tsan_scenarios.cpp')
+    hh = file_hash([src] + repo_sources())
+    exe = os.path.join(BUILD, 'bin', 'tsan_scenarios-%s' % hh)
+    if os.path.exists(exe):
+        return exe
+    os.makedirs(os.path.dirname(exe), exist_ok=True)
+    rc, out = sh(['g++', '-std=c++17', '-O1', '-g', '-fsanitize=thread', '-Wno-tsan', '-D' + HOOK_GUARD, '-I' + os.path.join(REPO, 'include'), src,
+                  '-o', exe + '.tmp', '-lpthread'])
+    if rc != 0:
+        raise BuildError('tsan scenarios do not build:\n' + out[-3000:])
+    os.replace(exe + '.tmp', exe)
+    return exe
+
+
+def check_c10(ctx):
+    from concurrent.futures import ThreadPoolExecutor
+    ok = proof_step(ctx, 'BinlogVerif.Generated.Locks', C10_THEOREMS,
+                    extra_targets=['BinlogVerif.Generated.Session', 'BinlogVerif.Generated.Orders'])
+    exe = build_tsan()
+    nruns = cases_count(ctx, 24, 400) if ok else 200
+    seeds = [ctx.seed * 1000 + i for i in range(nruns)]
+
+    def one(sd):
+        e = dict(os.environ); e['TSAN_OPTIONS'] = 'halt_on_error=0 report_signal_unsafe=0'
+        p = subprocess.run([exe, str(sd), str(2 + sd % 5), str(800 + 400 * (sd % 4))], stdout=subprocess.PIPE, stderr=subprocess.PIPE, env=e, timeout=600)
+        return sd, p.returncode, p.stdout.decode()[-200:], p.stderr.decode()
+    import subprocess
+    with ThreadPoolExecutor(max_workers=8) as ex:
+        res = list(ex.map(one, seeds))
+    prop_fail = set()
+    logged = 0
+    for sd, rc, out, err in res:
+        if 'logged=' in out:
+            logged += int(out.split('logged=')[1].split()[0])
+        if 'WARNING: ThreadSanitizer' in err or rc != 0:
+            prop_fail.add(sd)
+            first = err.split('WARNING: ThreadSanitizer')[1][:1800] if 'WARNING: ThreadSanitizer' in err else err[-1500:]
+            ctx.violation('tsan-%d' % sd, 'C10: ThreadSanitizer reports a data race in documented-concurrent use of one session (seed %d)' % sd,
+                          {'kind': 'schedule', 'seed': sd, 'cmd': '%s %d %d %d' % (exe, sd, 2 + sd % 5, 800 + 400 * (sd % 4)), 'tsan_report': first})
+            if len(prop_fail) >= 3:
+                break
+    ctx.streams['tsan_scenarios'] = {'runs': len(res), 'events_logged': logged, 'reports': len(prop_fail)}
+    finish_proof(ctx, ok, bool(prop_fail))
+    ctx.coverage.update({'evaluations': len(res), 'distinct_nontrivial': len(res), 'traces_validated_against_impl': len(res) - len(prop_fail),
+                         'rule': 'ThreadSanitizer runs of the real, unmodified headers: 2..6 writer threads (log with small queues forcing channel '
+                                 'replacement, rename, move, destroy+create), a consumer thread and an administrator thread (setClockSync, '
+                                 'setMinSeverity, addEventSource, reconsumeMetadata), randomised by seed; TSan is the failing-input finder, the '
+                                 'claim is the lockset theorem instantiated with the access table extracted from the sources, plus C01 for the queue'})
+    ctx.samples = ['%s <seed> <writers> <iterations>' % os.path.basename(exe)]
+    ctx.assumptions.append('mutex sections are atomic steps (standard DRF argument); constructors/destructors run while the object is not shared; '
+                           'std::shared_ptr reference counting and std::mutex are race free (libstdc++)')
+    return ctx.finish()
+
+
+CHECKS['C10'] = check_c10
